@@ -1,0 +1,145 @@
+// SPDX-FileCopyrightText: 2026 The Pion community <https://pion.ly>
+// SPDX-License-Identifier: MIT
+
+//go:build verif && !js
+
+package webrtc
+
+import (
+	"errors"
+	"io"
+
+	"github.com/pion/interceptor"
+)
+
+// ErrVerifNoPrimary is what the fake primary stream of VerifRTX returns: TrackRemote.Read yields it
+// exactly when no unwrapped RTX packet was waiting.
+var ErrVerifNoPrimary = errors.New("verif: nothing on the primary stream")
+
+// VerifRTXAttrKey is set in the attributes the fake repair interceptor hands over when asked to.
+const VerifRTXAttrKey = "verif_marker"
+
+type verifRTXItem struct {
+	image []byte
+	n     int
+	attrs interceptor.Attributes
+}
+
+// VerifRTX drives the repair-stream reader of a real RTPReceiver (maybeStartRepairStreamReader,
+// readRTX, TrackRemote.Read) with one track and a fake repair interceptor (verification hook, C26).
+type VerifRTX struct {
+	receiver *RTPReceiver
+	track    *TrackRemote
+	feed     chan verifRTXItem
+	idle     chan struct{}
+}
+
+// NewVerifRTX builds an RTPReceiver with one track (primary SSRC ssrc, payload type pt, repair SSRC
+// rtxSSRC) whose pooled repair buffers are mtu bytes long. The repair reader goroutine is started
+// either by receiveForRtx (startImmediately) or by the first TrackRemote.Read.
+func NewVerifRTX(mtu uint, pt PayloadType, ssrc, rtxSSRC SSRC, startImmediately bool) (*VerifRTX, error) {
+	se := SettingEngine{}
+	se.SetReceiveMTU(mtu)
+	api := NewAPI(WithSettingEngine(se))
+	receiver, err := api.NewRTPReceiver(RTPCodecTypeVideo, &DTLSTransport{api: api})
+	if err != nil {
+		return nil, err
+	}
+	verif := &VerifRTX{
+		receiver: receiver,
+		feed:     make(chan verifRTXItem),
+		idle:     make(chan struct{}),
+	}
+	receiver.configureReceive(RTPReceiveParameters{Encodings: []RTPDecodingParameters{{
+		RTPCodingParameters: RTPCodingParameters{RID: "rid", SSRC: ssrc, RTX: RTPRtxParameters{SSRC: rtxSSRC}},
+	}}})
+	primary := interceptor.RTPReaderFunc(
+		func(_ []byte, a interceptor.Attributes) (int, interceptor.Attributes, error) {
+			return 0, a, ErrVerifNoPrimary
+		},
+	)
+	params := RTPParameters{Codecs: []RTPCodecParameters{{
+		RTPCodecCapability: RTPCodecCapability{MimeType: MimeTypeVP8},
+		PayloadType:        pt,
+	}}}
+	track, err := receiver.receiveForRid(
+		"rid", params, &interceptor.StreamInfo{SSRC: uint32(ssrc)}, nil, primary, false, nil, nil, nil,
+	)
+	if err != nil {
+		return nil, err
+	}
+	// the payload type of the primary stream is normally learnt from its first packet (checkAndUpdateTrack)
+	track.mu.Lock()
+	track.payloadType = pt
+	track.mu.Unlock()
+	verif.track = track
+	close(receiver.received)
+
+	repair := interceptor.RTPReaderFunc(
+		func(b []byte, _ interceptor.Attributes) (int, interceptor.Attributes, error) {
+			verif.idle <- struct{}{} // everything handed over so far has been processed
+			item, ok := <-verif.feed
+			if !ok {
+				return 0, nil, io.EOF
+			}
+			k := copy(b, item.image)
+			clear(b[k:])
+
+			return item.n, item.attrs, nil
+		},
+	)
+	if err = receiver.receiveForRtx(
+		rtxSSRC, "", &interceptor.StreamInfo{SSRC: uint32(rtxSSRC)}, nil, repair, startImmediately, nil, nil,
+	); err != nil {
+		return nil, err
+	}
+	if !startImmediately {
+		// the first Read of the track requests the repair reader
+		if _, _, err = track.Read(make([]byte, 1)); !errors.Is(err, ErrVerifNoPrimary) {
+			return nil, err
+		}
+	}
+	<-verif.idle
+
+	return verif, nil
+}
+
+// PoolBufferLen is the length of the buffers the repair reader hands to the repair interceptor.
+func (v *VerifRTX) PoolBufferLen() int {
+	b, _ := v.receiver.rtxPool.Get().([]byte)
+	defer v.receiver.rtxPool.Put(b) // nolint:staticcheck
+
+	return len(b)
+}
+
+// Feed makes the next Read of the repair interceptor fill the pooled buffer with image (zero
+// extended) and return n, then waits until the reader goroutine has dealt with it.
+func (v *VerifRTX) Feed(image []byte, n int, withAttrs bool) {
+	item := verifRTXItem{image: image, n: n}
+	if withAttrs {
+		item.attrs = interceptor.Attributes{VerifRTXAttrKey: true}
+	}
+	v.feed <- item
+	<-v.idle
+}
+
+// Read is TrackRemote.Read with a buffer of readLen bytes.
+func (v *VerifRTX) Read(readLen int) ([]byte, interceptor.Attributes, error) {
+	b := make([]byte, readLen)
+	n, a, err := v.track.Read(b)
+
+	return b[:n], a, err
+}
+
+// Stop is RTPReceiver.Stop. The repair reader may leave when it next looks at the receiver's state, so
+// nothing must be fed afterwards.
+func (v *VerifRTX) Stop() error {
+	return v.receiver.Stop()
+}
+
+// Close ends the repair reader and stops the receiver.
+func (v *VerifRTX) Close() error {
+	close(v.feed)
+
+	return v.receiver.Stop()
+}
